@@ -118,3 +118,80 @@ Proof.
         rewrite (LB Hms Elm) by lia. rewrite idx_id_nth.
         cbn [rbind]. exists h. split; [reflexivity|exact I].
 Qed.
+
+(* ---------------------------------------------------------------- mpt_node_locate from any node of a list *)
+Lemma firstn_app_len {A} (a b : list A) : firstn (length a) (a ++ b) = a.
+Proof. rewrite firstn_app, Nat.sub_diag, firstn_all. cbn. apply app_nil_r. Qed.
+Lemma skipn_app_len {A} (a b : list A) : skipn (length a) (a ++ b) = b.
+Proof. rewrite skipn_app, Nat.sub_diag, skipn_all. reflexivity. Qed.
+Lemma nth_error_app_len {A} (a : list A) x b : nth_error (a ++ x :: b) (length a) = Some x.
+Proof. rewrite nth_error_app2, Nat.sub_diag by lia. reflexivity. Qed.
+
+(* locate(any node, 0): the last match of the whole list *)
+Lemma loc_last_from h par l nm fuel j t :
+  rep_l (cells h) par None l None -> length l + 1 <= fuel -> nth_error l j = Some t ->
+  locate fuel h (Some (tid t)) 0%Z nm =
+  ROk (idx_id l (match matches nm 0 l with [] => None | _ :: _ => Some (last (matches nm 0 l) 0) end)).
+Proof.
+  intros R Hfu E0. set (ms := matches nm 0 l).
+  unfold locate. change (0 =? 0)%Z with true. cbn iota.
+  assert (Hne : l <> []) by (intros ->; destruct j; discriminate).
+  assert (Hj : j < length l) by (apply nth_error_Some; congruence).
+  destruct (last_of_spec h par None l R fuel j t E0) as (tl & Etl & Ell); [lia|].
+  rewrite Ell. cbn [rbind].
+  rewrite (get_ok _ _ _ (cell_at _ _ _ _ _ _ _ R Etl)). cbn [rbind nname].
+  destruct (Nat.eqb_spec (tname tl) nm) as [En|En].
+  - destruct (matches_last_elem nm l tl Etl En Hne) as [E1 E2]. fold ms in E1, E2.
+    destruct ms as [|m0 ms'] eqn:Ems; [contradiction|]. rewrite <- Ems in *. rewrite E1.
+    cbn [idx_id]. unfold nth_id. rewrite Etl. reflexivity.
+  - assert (Hl : length l - 1 < length l) by lia.
+    rewrite (loc_back_spec h par l None nm R fuel (length l - 1) tl 1 Etl) by lia.
+    pose proof (back_matches nm (firstn (length l - 1) l) 1 ltac:(lia)) as B.
+    rewrite firstn_length, Nat.min_l in B by lia. rewrite B.
+    rewrite <- (matches_last_nomatch nm l tl Etl En Hne). fold ms.
+    change (1 - 1) with 0. rewrite (hd_rev_last ms 0). reflexivity.
+Qed.
+
+Lemma step_locate x pos q : refines_step (OLocate x pos q).
+Proof.
+  intros h s I. cbn [mstep sstep]. rewrite (live_iff _ _ _ I).
+  destruct (focus x (lists s)) as [[[[[frs o] l1] tx] l2]|] eqn:FX.
+  2:{ assert (Sl : slive s x = false).
+      { destruct (slive s x) eqn:Sl; [|reflexivity]. apply mem_in in Sl. exfalso. exact (focus_st_none _ _ _ FX Sl). }
+      rewrite Sl. cbn [fst snd]. eexists; split; [reflexivity|exact I]. }
+  assert (Sl : slive s x = true) by (apply mem_in; eapply focus_in; exact FX).
+  rewrite Sl. cbn [fst snd].
+  destruct q as [nm|]; [|exists h; split; [reflexivity|exact I]].
+  destruct (focus_cell _ _ _ _ _ _ _ _ (i_rep _ _ I) FX) as [_ R].
+  destruct (focus_perm _ _ _ _ _ _ _ FX) as [_ Ex].
+  rewrite rep_plug in R. destruct R as (Rl & _ & _).
+  pose proof (focus_len _ _ _ _ _ _ _ _ I FX) as Len.
+  set (l := l1 ++ tx :: l2) in *.
+  assert (Ej : nth_error l (length l1) = Some tx) by apply nth_error_app_len.
+  assert (Hfu : length l + 1 <= fuel_of h) by (unfold fuel_of; lia).
+  rewrite <- Ex.
+  assert (Goal : locate (fuel_of h) h (Some (tid tx)) pos nm = ROk (idx_id l (locate_index l1 tx l2 nm pos))).
+  { unfold locate_index. destruct (Z.eqb_spec pos 0) as [->|Np0].
+    - rewrite (loc_last_from h (cpar frs) l nm (fuel_of h) (length l1) tx Rl Hfu Ej). fold l.
+      destruct (matches nm 0 l); reflexivity.
+    - destruct (Z.ltb_spec 0 pos) as [Hp|Hp].
+      + rewrite locate_pos by lia.
+        rewrite (loc_fwd_spec h (cpar frs) None l nm Rl (fuel_of h) (length l1) tx (Z.to_nat pos) Ej) by lia.
+        unfold l. rewrite skipn_app_len. rewrite fwd_matches by lia. reflexivity.
+      + rewrite locate_neg by lia.
+        assert (Hl1 : length l1 < length l) by (unfold l; rewrite app_length; cbn [length]; lia).
+        rewrite (loc_back_spec h (cpar frs) l None nm Rl (fuel_of h) (length l1) tx (Z.to_nat (- pos)) Ej) by lia.
+        unfold l. rewrite firstn_app_len. rewrite back_matches by lia. reflexivity. }
+  rewrite Goal. cbn [rbind]. exists h. split; [|exact I].
+  destruct (locate_index l1 tx l2 nm pos); reflexivity.
+Qed.
+
+(* ---------------------------------------------------------------- entry points called with a NULL node *)
+Lemma step_null c : refines_step (ONull c).
+Proof.
+  intros h s I. cbn [mstep sstep]. unfold mnull, snull.
+  destruct c; try rewrite (live_iff _ _ _ I);
+    try (match goal with |- context [slive s ?y] => destruct (slive s y) end);
+    cbn [fst snd]; exists h; (split; [|exact I]);
+    try reflexivity; try (unfold fuel_of; reflexivity); try (destruct up; reflexivity).
+Qed.
